@@ -309,10 +309,97 @@ theorem runSubgraphs_results (env : Env) (cbs : Callbacks) :
             have ih' := ih _ w2 gs2 hrs
             simp [← h.1, ih', hres]
 
-/-- With no call site besides `subgraph`, later steps leave the invocation log untouched. -/
-theorem runSteps_nil (node : Node) : ∀ (steps : List Step) (w : World), runSteps [] node steps w = w
+/-! ## The call graph certificate -/
+
+open CallGraph in
+/-- A mask that contains the entry points and is closed under the edges contains everything reachable. -/
+theorem reach_in_mask (g : CallGraph.Graph) (mask : Nat) (hs : g.safe mask = true) (es : List Nat)
+    (hes : ∀ e ∈ es, e ∈ g.allEntries) : ∀ x, Reach g.edges es x → inMask mask x = true := by
+  simp only [Graph.safe, Bool.and_eq_true, List.all_eq_true] at hs
+  obtain ⟨⟨hE, hC⟩, _⟩ := hs
+  intro x hx
+  induction hx with
+  | entry he => exact hE _ (hes _ he)
+  | step _ hedge ih =>
+    have := hC _ hedge
+    simp only [Bool.or_eq_true, Bool.not_eq_true'] at this
+    rcases this with h | h
+    · rw [ih] at h; cases h
+    · exact h
+
+open CallGraph in
+theorem expand_reach (edges : List (Nat × Nat)) (es : List Nat) :
+    ∀ (l : List (Nat × Nat)) (acc : List Nat), (∀ e ∈ l, e ∈ edges) → (∀ c ∈ acc, Reach edges es c) →
+      ∀ x ∈ l.foldl (fun acc e => if acc.contains e.1 && !acc.contains e.2 then e.2 :: acc else acc) acc,
+        Reach edges es x := by
+  intro l
+  induction l with
+  | nil => intro acc _ h x hx; exact h x hx
+  | cons e l ih =>
+    intro acc hl h x hx
+    simp only [List.foldl_cons] at hx
+    refine ih _ (fun e' he' => hl e' (by simp [he'])) ?_ x hx
+    intro c hc
+    split at hc
+    · rename_i hcond
+      simp only [List.mem_cons] at hc
+      rcases hc with rfl | hc
+      · have h1 : e.1 ∈ acc := by
+          simp only [Bool.and_eq_true, List.contains_iff_mem] at hcond
+          exact hcond.1
+        exact Reach.step (h _ h1) (hl e (by simp))
+      · exact h c hc
+    · exact h c hc
+
+open CallGraph in
+theorem closure_reach (edges : List (Nat × Nat)) (es : List Nat) :
+    ∀ (fuel : Nat) (cur : List Nat), (∀ c ∈ cur, Reach edges es c) →
+      ∀ x ∈ closure edges fuel cur, Reach edges es x := by
+  intro fuel
+  induction fuel with
+  | zero => intro cur h x hx; exact h x hx
+  | succ fuel ih =>
+    intro cur h x hx
+    simp only [closure] at hx
+    split at hx
+    · exact h x hx
+    · exact ih _ (fun c hc => expand_reach edges es edges cur (fun _ h => h) h c hc) x hx
+
+open CallGraph in
+theorem entriesOf_sub (g : CallGraph.Graph) (kind : String) : ∀ e ∈ g.entriesOf kind, e ∈ g.allEntries := by
+  intro e he
+  unfold Graph.entriesOf at he
+  cases hf : g.entries.find? (fun p => p.1 == kind) with
+  | none => simp [hf] at he
+  | some p =>
+    simp only [hf, Option.map_some, Option.getD_some] at he
+    have hp := List.mem_of_find?_eq_some hf
+    simp only [Graph.allEntries, List.mem_flatMap]
+    exact ⟨p, hp, he⟩
+
+open CallGraph in
+/-- With a valid certificate, no step entering at entry points reaches a function that invokes a
+    stored callback. -/
+theorem reachesSink_false (g : CallGraph.Graph) (mask : Nat) (hs : g.safe mask = true) (es : List Nat)
+    (hes : ∀ e ∈ es, e ∈ g.allEntries) : g.reachesSink es = false := by
+  have hsink : ∀ s ∈ g.sinks, inMask mask s = false := by
+    simp only [Graph.safe, Bool.and_eq_true, List.all_eq_true] at hs
+    intro s hsm
+    simpa using hs.2 s hsm
+  simp only [Graph.reachesSink, List.any_eq_false]
+  intro x hx hc
+  have hr := closure_reach g.edges es g.n es (fun c hc => Reach.entry hc) x hx
+  have h1 := reach_in_mask g mask hs es hes x hr
+  have h2 := hsink x (by simpa using hc)
+  rw [h1] at h2; cases h2
+
+/-- With a valid certificate, later steps leave the invocation log untouched. -/
+theorem runSteps_safe (g : CallGraph.Graph) (mask : Nat) (hs : g.safe mask = true) (node : Node) :
+    ∀ (steps : List Step) (w : World), runSteps g node steps w = w
   | [], _ => rfl
-  | s :: rest, w => by simp [runSteps, postStep, runSteps_nil node rest]
+  | s :: rest, w => by
+    simp [runSteps, postStep, reachesSink_false g mask hs _ (entriesOf_sub g s.kind),
+      runSteps_safe g mask hs node rest]
 
 /-! ## What the callbacks see -/
 
